@@ -11,7 +11,7 @@ echo "|---|---|---|---|---|" >> $out
 for d in seeded/*/; do
   id=$(basename $d)
   [ -f "$d/patch.diff" ] || continue
-  prop=$(echo $id | cut -c1-3)
+  case "$id" in C0*) prop=$(echo $id | cut -c1-3);; own-*) prop=C06;; *) continue;; esac
   r=$(tools/try_mutant.sh $id $prop $tier 2>&1)
   ex=$(echo "$r" | head -1 | sed 's/.*exit=\([0-9]*\).*/\1/')
   nv=$(echo "$r" | head -1 | sed 's/.*exit=[0-9]*  \([0-9]*\) violation.*/\1/')
